@@ -13,6 +13,18 @@ CLAIMED = {
         "Trusts CPython ast/re, the transcription of Tables 1-3 in spec/pdf_lexical.json and the reference automaton confirmed by reading. Known finding C01-R4 (odd hex digit) is pinned by the existing test-suite and therefore recorded, not repaired.",
         "DESIGN.md §5 C01",
     ),
+    "C05": (
+        "arity/dispatch table check vs ISO 32000-1 Annex A, must-call ordering on handler CFGs, polynomial normal forms of the positioning kernels and pen-advance bindings, copy-completeness of state objects, pairing/restore checks on the form-XObject branch",
+        "Decides the structural necessary conditions of the text model: each text/graphics-state operator exists with the spec'd operand count and is only invoked with all operands; ', \", TD, Tj decompose as 9.4.2-9.4.3 prescribe; Td/TD/T*/Tm/BT/cm compute the spec formulas (polynomial identities); q/Q and TJ snapshots copy every state field; nested form execution uses a fresh interpreter, own/copied resources, balanced figure bracket and re-issues the caller's CTM; scale factors and parameter bindings of the pen advance are the spec's. Numeric glyph positions for arbitrary programs and font metrics are not decided.",
+        "Trusts the transcription of Annex A in spec/pdf_operators.json. Known finding C05-R6 (character spacing added before instead of after a glyph) is recorded, not repaired.",
+        "DESIGN.md §5 C05",
+    ),
+    "C16": (
+        "arity table check, paint-flag table with delegation resolution, post-dominance of the path reset, symbolic evaluation of path construction (`re` normal form), write-set checks of colour/line-state operators, parameter binding from paint_path through LTLine/LTRect into LTCurve fields, saved-state completeness",
+        "Decides the structural necessary conditions of path painting: arities, (stroke, fill, even-odd) flags per operator, close-first for s/b/b*, current path cleared on all paths by every painting operator and n, `re` expansion, which graphics-state fields each colour/line operator writes, that every shape constructor receives line width, flags, both colours, path and dash of the state in force (followed down to the stored fields), the classification sets, and which state q/Q saves. Transformed coordinates as numbers are not decided.",
+        "Trusts spec/pdf_operators.json. Known findings C16-R6 (current colour spaces not part of the q/Q snapshot) are recorded.",
+        "DESIGN.md §5 C16",
+    ),
     "C14": (
         "finite abstraction of the scanner automaton analysed completely (path enumeration of loop-free scanners with symbolic index arithmetic; zero-advance subgraph acyclicity), exception-flow analysis over the resolved call graph with a verified safe-table, buffer-read classification, write-set checks",
         "The tokenizer's twelve scanner methods are abstracted to a finite automaton whose every transition is classified by the advance of the returned index; acyclicity of the zero-advance subgraph plus the driver-loop obligations give termination and non-decreasing positions for every byte string; the exception-flow analysis shows only PSEOF escapes; read classification shows tokens cannot depend on the buffer size. This is a complete analysis of the abstraction, not a sample of inputs.",
